@@ -82,7 +82,16 @@ impl HistMonitor for C01 {
         if self.abandoned {
             return None;
         }
-        if o.adopt_error.is_some() {
+        let unexpected_additions = matches!(op, Op::Merge { .. }) && {
+            let mut want: BTreeSet<usize> = o.keys_before.iter().copied().collect();
+            for p in &o.prims {
+                if let Prim::Add(v) = p {
+                    want.insert(*v);
+                }
+            }
+            want != o.keys_after.iter().copied().collect::<BTreeSet<usize>>() && o.keys_after.len() >= o.keys_before.len()
+        };
+        if o.adopt_error.is_some() || unexpected_additions {
             // the removal rule below needs no attribution and is still applied to this call
             self.abandoned = true;
             ctx.c.inc("c01.history-abandoned-unattributable-compound-call");
@@ -298,11 +307,37 @@ pub fn slot_fill(s: &mut Session, ctx: &mut Ctx) -> Option<String> {
 pub struct C03 {
     pub saw_foreign_collection_check: bool,
     vertex_checks: u64,
+    real: BTreeMap<usize, Option<Vec<u8>>>,
+    suspect: Option<usize>,
+    suspects_done: BTreeSet<usize>,
 }
 
 impl C03 {
+    /// Spend a real read on a vertex whose stored bytes (hook) differ from the last put.
+    fn probe_suspect(&mut self, s: &mut Session, c: &mut crate::json::Counters) -> Option<String> {
+        let v = self.suspect.take()?;
+        self.suspects_done.insert(v);
+        if !s.m.present(v) || !s.g.keys().contains(&v) {
+            return None;
+        }
+        let op = Op::Data(v);
+        let o = s.step(&op);
+        c.inc("c03.suspect-data-reads");
+        if o.panic.is_some() {
+            return None;
+        }
+        if let (Ret::Data(r), Some(Ret::Data(w))) = (&o.ret, &o.model_ret) {
+            if r != w {
+                return Some(format!("{} returned {}, last put says {}", op.show(), show_data(r), show_data(w)));
+            }
+        }
+        c.inc("c03.latent-data-difference-unconfirmed");
+        None
+    }
+
     fn compare_all(&mut self, s: &Session, labels: &[sodg::Label], after_what: &str) -> Option<String> {
         let keys = s.g.keys();
+        self.real = crate::rec::real_data(s.g.as_ref());
         for v in keys {
             let Some(mv) = s.m.verts.get(&v) else { continue };
             self.vertex_checks += 1;
@@ -332,15 +367,11 @@ impl C03 {
                     return Some(format!("after {after_what}: kid({v},{l}) = {r:?}, last bind says {w:?}"));
                 }
             }
-            // data presence without reading: the Δ marker of v_print
-            if let Ok(vp) = s.g.v_print(v) {
-                let has = vp.contains('Δ');
-                if has != mv.data.is_some() {
-                    return Some(format!(
-                        "after {after_what}: ν{v} {} a datum (v_print {vp}), last writes say it {}",
-                        if has { "shows" } else { "shows no" },
-                        if mv.data.is_some() { "has one" } else { "has none" }
-                    ));
+            // data without reading: the hook shows what the vertex really holds; a difference from
+            // the last put is only a trigger — a real data(v) is spent there and its return judged
+            if let Some(rd) = self.real.get(&v) {
+                if *rd != mv.data && !self.suspects_done.contains(&v) {
+                    self.suspect = Some(v);
                 }
             }
         }
@@ -377,7 +408,10 @@ impl HistMonitor for C03 {
             self.saw_foreign_collection_check = true;
         }
         let labels = ctx.labels.clone();
-        self.compare_all(s, &labels, &op.show())
+        if let Some(m) = self.compare_all(s, &labels, &op.show()) {
+            return Some(m);
+        }
+        self.probe_suspect(s, ctx.c)
     }
 
     fn finish(&mut self, s: &mut Session, ctx: &mut Ctx) -> Option<String> {
@@ -504,11 +538,6 @@ impl HistMonitor for C04 {
                 let ks = s.g.kids(*v);
                 if !ks.is_empty() {
                     return Some(format!("add({v}) on an absent id created a vertex with edges {}", show_edges(&ks)));
-                }
-                if let Ok(vp) = s.g.v_print(*v) {
-                    if vp.contains('Δ') {
-                        return Some(format!("add({v}) on an absent id created a vertex with data ({vp})"));
-                    }
                 }
                 // a real read: must be None (no side effect on an empty vertex)
                 let rd = Op::Data(*v);
@@ -681,13 +710,6 @@ impl HistMonitor for C05 {
                 for id in &created {
                     if let Some(m) = check(&mut self.returned, *id, "merge() internally") {
                         return Some(m);
-                    }
-                }
-                // an edge the left graph lacked now leads to a vertex that was present before:
-                // the "new" vertex coincides with a present one
-                if let Some(e) = &o.adopt_error {
-                    if e.contains("already present") {
-                        return Some(format!("{}: {e}", op.show()));
                     }
                 }
             }
